@@ -319,6 +319,8 @@ class P:
             if self.peek() == ("id", "else"):
                 self.eat(); el = self.block_or_stmt()
             return ("if", c, th, el)
+        if tk == ("id", "const") and self.peek(1)[0] == "id" and self.peek(1)[1] in ("Index", "Type", "int") and self.peek(2)[0] == "id":
+            self.eat(); tk = self.peek()            # `const Index k = …;`: a local declaration like any other (locals are single-assignment anyway)
         if tk[0] == "id" and tk[1] in ("Index", "Type", "int") and self.peek(1)[0] == "id":
             self.eat(); name = self.eat("id")[1]
             if self.at("="):
